@@ -94,13 +94,13 @@ pub fn run_g2_cofactor(ctx: &mut Ctx) {
         ctx.case("bn2-torsion", true, &format!("bn2 tf {pt}"), &format!("{}", tf as u8));
         ctx.count(&format!("bn2-torsion-free:{tf}"));
         if tf != law {
-            ctx.oracle_fail(&format!("C11:bn2:tf {pt}"), "is_torsion_free disagrees with r·P by the affine law", json!({"point": pt}));
+            crate::fail(ctx, &format!("C11:bn2:tf {pt}"), "is_torsion_free disagrees with r·P by the affine law", json!({"point": pt}));
         }
         let c = p.clear_cofactor();
         let cw = a_wp::<Bn2>(&c.to_affine());
         ctx.case("bn2-clear-cofactor", true, &format!("bn2 tf:clear_cofactor {}", big::tok_w(&cw)), &format!("{}", bool::from(c.is_torsion_free()) as u8));
         if big::w_mul(&f, &zero, &Bn2::order(), &cw).is_some() {
-            ctx.oracle_fail(&format!("C11:bn2:clear_cofactor {pt}"), "clear_cofactor returns a point outside the prime-order subgroup", json!({"point": pt}));
+            crate::fail(ctx, &format!("C11:bn2:clear_cofactor {pt}"), "clear_cofactor returns a point outside the prime-order subgroup", json!({"point": pt}));
         }
     }
 }
